@@ -183,7 +183,7 @@ var _ rpc.Resources
 //@ closure (*Subscription).loadAccess#2
 //@   requires s != nil && s.c != nil && predConnOK(s.c.(*wsConn)) && t != nil
 //@   assumes rescache.predThrottleInv(t) && t.running > 0
-//@   ensures[C19] callcount("Done") == old(callcount("Done")) + 1
+//@   ensures[C11,C19] callcount("Done") == old(callcount("Done")) + 1
 //@   ensures[C07] callcount("Enqueue") == old(callcount("Enqueue")) + 1
 //@   safety[C15]
 //@ closure (*Subscription).loadAccess#4
@@ -199,7 +199,7 @@ var _ rpc.Resources
 //@   ensures[C07] old(s.state) == stateDisposed ==> invoked() == old(invoked())
 //@   safety[C15]
 //@   loop 1 invariant invoked() == old(invoked()) + rangeidx1 && len(cbs) == old(len(s.accessCallbacks))
-//@   loop 1 invariant[C04] rangeidx1 == 0 ==> s.accessCallbacks == nil && s.flags & flagAccessCalled == 0 &&
+//@   loop 1 invariant[C04,C07] rangeidx1 == 0 ==> s.accessCallbacks == nil && s.flags & flagAccessCalled == 0 &&
 //@       (access.Error == nil || access.Error.Code == "system.accessDenied" ==> s.access == access) &&
 //@       (!(access.Error == nil || access.Error.Code == "system.accessDenied") ==> s.access == old(s.access))
 //@ closure (*Subscription).loadAccess#5
@@ -208,7 +208,7 @@ var _ rpc.Resources
 //@   ensures[C07] old(s.state) == stateDisposed ==> invoked() == old(invoked())
 //@   safety[C15]
 //@   loop 1 invariant invoked() == old(invoked()) + rangeidx1 && len(cbs) == old(len(s.accessCallbacks))
-//@   loop 1 invariant[C04] rangeidx1 == 0 ==> s.accessCallbacks == nil && s.flags & flagAccessCalled == 0 &&
+//@   loop 1 invariant[C04,C07] rangeidx1 == 0 ==> s.accessCallbacks == nil && s.flags & flagAccessCalled == 0 &&
 //@       (access.Error == nil || access.Error.Code == "system.accessDenied" ==> s.access == access) &&
 //@       (!(access.Error == nil || access.Error.Code == "system.accessDenied") ==> s.access == old(s.access))
 
